@@ -482,7 +482,7 @@ macro_rules! is_ilc {
 
         let next = indexing!(@nextc $self, $index);
         let slc = $self.byte.slc;
-        slc.get(next).map_or(true, |&x| $self.is_digit(x))
+        slc.get(next).map_or(false, |&x| $self.is_digit(x))
     }};
 
     (@internal $self:ident) => {
